@@ -19,7 +19,7 @@ Ifaces == [n \in DOMAIN IfacesRaw |-> Prepare(IfacesRaw[n])]     \* constant: ev
 VARIABLES l, nrej
 vars == <<l, nrej>>
 UnionOver(n, F(_)) == UNION {F(i) : i \in 1..n}
-NSlots == 3
+NSlots == 6       \* three index / type combinations used by the model's programs, plus the default slot, a (void, 1) slot and a type slot
 IOF == INSTANCE IOFold       \* reader / writer call sequences run inside a thread are judged as in TrIO
 
 CodecFails(s) ==
